@@ -246,6 +246,10 @@ func init() {
 		for i := range priv {
 			priv[i] = MkBV(8, 0)
 		}
+		// freshness: a newly generated key pair differs from every earlier one
+		for _, kp := range x.keyPairs {
+			x.assume(Not(bytesEq(pubT, kp.pub)))
+		}
 		pc, vc := new(Value), new(Value)
 		*pc, *vc = pub, priv
 		x.keyPairs = append(x.keyPairs, &keyPair{pub: pubT, priv: vc})
